@@ -23,6 +23,7 @@ Inductive hq :=
 | HEnum (k : hkind) (n : id) (r : bool)
 | HBelow (k : hkind) (r : bool) (h : href)
 | HHrefs (q : qitem)
+| HHrefsIn (n : id) (l : list id)
 | HValid (h : href)
 | HUnique (h : href)
 | HName (h : href)
@@ -65,6 +66,7 @@ Definition hanswer (s : state) (q : hq) : list (list N) :=
            | HKWire => hwires_below s r h
            end
   | HHrefs q => rows (hrefs_of_item s q)
+  | HHrefsIn n l => rows (hrefs_of_instances_in s l n)
   | HValid h => one_row [ser_bool (is_valid s h)]
   | HUnique h =>
       match is_unique s (depth_fuel s) h with Some b => one_row [ser_bool b] | None => fuel_out end
